@@ -126,7 +126,8 @@ def build_unit(name, sentinel=False, disabled_hints=(), extra_consts=()):
                 continue
             from . import rules as _rules
             u.emit(rel, '%s %s' % (kind, cname), rules=([_rules.r1_r2_map_collect(0, with_decreases=True), _rules.r13_assert_eq] if kind == 'fn' else ()),
-                   pre=(lambda t: re.sub(r'(?m)^((?:pub )?fn )', r'#[verifier::exec_allows_no_decreases_clause]\n\1', t, count=1)) if kind == 'fn' else None)
+                   pre=(lambda t: re.sub(r'(?m)^((?:pub )?fn )', r'#[verifier::exec_allows_no_decreases_clause]\n\1', t, count=1)) if kind == 'fn'
+                   else (lambda t: re.sub(r"(const\s+\w+\s*:\s*)&str\b", r"\1&'static str", t)))    # a constant of type &str: the elided lifetime is 'static; Verus wants it written
             if kind == 'fn':
                 u.autosliced_fns = getattr(u, 'autosliced_fns', []) + [cname]
             u.relaxed.append('%s %s (not in the unit description) sliced from %s because the code now refers to it%s' % (
